@@ -26,6 +26,14 @@ def gen_path(rnd, sd):
         ext = (rnd.randrange(0, 9) * G, rnd.randrange(0, 9) * G) if end == 3 else (0.0, 0.0)
         els.append({'width': w, 'offset': off, 'tag': (i, 0), 'join': rnd.choice([0, 1, 2, 3]), 'end': end, 'ext': ext, 'bend': 0, 'bend_radius': 0.0})
     style = rnd.choice(['polyline', 'polyline', 'mixed', 'mixed', 'bends', 'tapered_curve'])
+    # simple paths (constant width and offset) are also saved as PATH records and read back from the bytes
+    simple = rnd.random() < 0.2
+    if simple:
+        style = rnd.choice(['polyline', 'mixed', 'mixed', 'bends'])
+        for e in els:
+            if e['end'] == 1:
+                e['end'] = rnd.choice([0, 2, 3])
+                e['ext'] = (rnd.randrange(0, 9) * G, rnd.randrange(0, 9) * G) if e['end'] == 3 else (0.0, 0.0)
     tapered_curve = style == 'tapered_curve'
     if tapered_curve:
         # one or two curved sections with a strong width taper: the edges of the outline then turn at a different rate than the centre line
@@ -63,6 +71,8 @@ def gen_path(rnd, sd):
 
     def taper():
         ex = {}
+        if simple:
+            return ex
         if tapered_curve:
             ex['w'] = [e['width'] * rnd.choice([0.4, 0.6, 1.4, 1.8]) for e in els]
             return ex
@@ -179,7 +189,7 @@ def gen_path(rnd, sd):
                 d2 = direction()
                 calls.append(('commands', ['l', d[0], d[1], 'l', d2[0], d2[1]], {}))
                 cx, cy = cx + d[0] + d2[0], cy + d[1] + d2[1]
-    return {'p0': p0, 'tol': tol, 'elements': els, 'simple': False, 'scale_width': True, 'calls': calls, 'rep': None, 'props': []}
+    return {'p0': p0, 'tol': tol, 'elements': els, 'simple': simple, 'scale_width': True, 'calls': calls, 'rep': None, 'props': []}
 
 
 def make_case(i):
@@ -187,10 +197,20 @@ def make_case(i):
     rnd = random.Random(sd)
     fp = gen_path(rnd, sd)
     c = Case('Q%d' % i, timeout=60)
-    genlib.emit_flexpath(c, '-', fp)
+    if fp['simple']:
+        c.op('lib', script.hx('L'), fl(1e-6), fl(1e-9))
+        c.op('cell', script.hx('C'), 'l0')
+        genlib.emit_flexpath(c, 'c0', fp)
+    else:
+        genlib.emit_flexpath(c, '-', fp)
     c.op('dump_el', 'f0', 'path')
     c.op('to_polygons', 'f0')
     c.op('dump_el', 'f0', 'after')
+    if fp['simple']:
+        c.op('write_gds', 'l0', 'p.gds', 0)
+        c.op('filehex', 'p.gds')
+        c.op('write_oas', 'l0', 'p.oas', fl(0.0), 0, 0)
+        c.op('filehex', 'p.oas')
     c.meta = {'seed': sd, 'path': fp}
     return c
 
@@ -327,6 +347,7 @@ def judge(chk, c, evs):
         chk.cov('cases_judged')
         return
     sp = [spine[i] for i in keep]
+    centres = {}
     # bookkeeping after the outline was built: duplicates are gone from the spine and from every element alike
     if len(d) > 1:
         el2 = d[1]['el']
@@ -512,9 +533,83 @@ def judge(chk, c, evs):
         chk.cov('inside_tests', inside_tests)
         chk.cov('outside_tests', outside_tests)
         chk.cov('elements_checked')
+        centres[ei] = (cl, hw[0], e)
+    if fp['simple'] and not path_records(chk, c, evs, fp, centres, tol, rp):
+        return
     chk.cov('cases_judged')
     if nontrivial:
         chk.fp(c.id)
+
+
+def _hausdorff(A, B):
+    """max over the vertices and segment mid points of A of the distance to polyline B, and vice versa"""
+    def one(P, Q):
+        worst = 0.0
+        pts = list(P) + [((P[k][0] + P[k + 1][0]) / 2, (P[k][1] + P[k + 1][1]) / 2) for k in range(len(P) - 1)]
+        for p in pts:
+            d2 = min(geom.dist2_point_seg(p[0], p[1], Q[k][0], Q[k][1], Q[k + 1][0], Q[k + 1][1]) for k in range(len(Q) - 1))
+            worst = max(worst, math.sqrt(d2))
+        return worst
+    return max(one(A, B), one(B, A))
+
+
+def path_records(chk, c, evs, fp, centres, tol, rp):
+    """a simple path saved as a GDSII / OASIS PATH record denotes the same region: the centre line, width and end style read back from the
+    bytes (independent decoders) against the oracle's centre line and the specified width"""
+    import gds_codec
+    import oas_codec
+    grid = 1e-3
+    fh = {e['path']: e['hex'] for e in evs if e['op'] == 'filehex'}
+    ws = [e for e in evs if e['op'] in ('write_gds', 'write_oas') and e.get('k') != 'call']
+    if len(ws) != 2 or fh.get('p.gds') is None or fh.get('p.oas') is None:
+        chk.harness_error('%s: PATH files missing' % c.id)
+        return False
+    try:
+        g = gds_codec.decode(bytes.fromhex(fh['p.gds']))
+        o = oas_codec.decode(bytes.fromhex(fh['p.oas']))
+    except (gds_codec.GdsError, oas_codec.OasError) as ex:
+        chk.violation('C07/path-record/decode', 'the file written for a simple path is rejected by the independent decoder: %s' % ex, rp)
+        return False
+    gp = [e for cc in g['cells'] for e in cc['elements'] if e['kind'] == 'path']
+    op = [e for cc in o['cells'] for e in cc['elements'] if e['kind'] == 'path']
+    nel = len(fp['elements'])
+    if len(gp) != nel or len(op) != nel:
+        chk.violation('C07/path-record/count', 'a simple path of %d elements was saved as %d GDSII and %d OASIS PATH records' % (nel, len(gp), len(op)), rp)
+        return False
+    for ei, (cl, hw, edump) in centres.items():
+        spec = fp['elements'][ei]
+        want_hw = hw / grid
+        rmax = max([0.0] + [e_['bend_radius'] for e_ in fp['elements']])
+        slack = tol + 2.2 * grid + 0.003 * rmax
+        ext = (spec['ext'][0] / grid, spec['ext'][1] / grid)
+        for fmt, el in (('GDSII', gp[ei]), ('OASIS', op[ei])):
+            if fmt == 'GDSII':
+                pts = [(x * grid, y * grid) for x, y in el['xy']]
+                tagok = (el['layer'], el['datatype']) == tuple(spec['tag'])
+                wok = abs(abs(el['width']) - 2 * want_hw) <= 1.0
+                pt = {0: 0, 2: 2, 3: 4}[spec['end']]
+                eok = el['pathtype'] == pt and (pt != 4 or (abs(el['bgnextn'] - ext[0]) <= 0.5 + 1e-9 and abs(el['endextn'] - ext[1]) <= 0.5 + 1e-9))
+                wdesc = 'width %s pathtype %s extensions (%s, %s)' % (el['width'], el['pathtype'], el['bgnextn'], el['endextn'])
+            else:
+                pts = [(x * grid, y * grid) for x, y in el['pts']]
+                tagok = (el['layer'], el['datatype']) == tuple(spec['tag'])
+                wok = abs(el['halfwidth'] - want_hw) <= 0.5 + 1e-9
+                wantext = {0: (0.0, 0.0), 2: (want_hw, want_hw), 3: ext}[spec['end']]
+                eok = abs(el['ext'][0] - wantext[0]) <= 0.5 + 1e-9 and abs(el['ext'][1] - wantext[1]) <= 0.5 + 1e-9
+                wdesc = 'half width %s extensions %s' % (el['halfwidth'], el['ext'])
+            if not tagok:
+                chk.violation('C07/path-record/tag', '%s PATH %d carries tag (%s, %s), element has %s' % (fmt, ei, el['layer'], el['datatype'], spec['tag']), rp)
+                return False
+            if not wok or not eok:
+                chk.violation('C07/path-record/width-or-ends', '%s PATH %d: %s; the element has half width %.6g grid units, end style %d, extensions %s grid units' % (
+                    fmt, ei, wdesc, want_hw, spec['end'], ext), rp)
+                return False
+            d = _hausdorff(pts, cl)
+            if d > slack:
+                chk.violation('C07/path-record/centre-line', '%s PATH %d: its point list is %.4g away from the centre line of the element (allowed %.4g)' % (fmt, ei, d, slack), rp)
+                return False
+            chk.cov('path_records_checked')
+    return True
 
 
 def work(rec, b, indices):
